@@ -136,8 +136,13 @@ DoStep ==
                   ELSE IF a.ack = <<>> THEN Len(gotA) # 0
                   ELSE ~(Len(gotA) = 1 /\ gotA[1].msg.v = a.ack[1])
         refusedCall == wantErr /\ Ev.ev = "Call"
+        \* a malformed status message: reporting an error or ignoring it are both fine, as long as nothing is raised,
+        \* emitted or changed
+        lenient == i0.m = "onStatus" /\ i0.code = "malformed"
         verdictCli ==
-            IF noEvent THEN (IF Len(gotE) # 0 THEN "event raised in a state that does not permit it (" \o i0.m \o ")" ELSE "")
+            IF lenient THEN (IF Len(gotE) # 0 \/ (\E k \in 1 .. Len(gotO) : IsRequest(gotO[k])) \/ Ev.probe.state # prevProbe.state
+                             THEN "malformed status message was acted upon" ELSE "")
+            ELSE IF noEvent THEN (IF Len(gotE) # 0 THEN "event raised in a state that does not permit it (" \o i0.m \o ")" ELSE "")
             ELSE IF Ev.res # "ok" /\ ~wantErr THEN "call failed where the workflow prescribes a result: " \o Ev.res
             ELSE IF wantErr /\ Ev.res = "ok" THEN "call succeeded where it must be refused (" \o i0.m \o ")"
             ELSE IF wantErr /\ (Len(gotO) # 0 \/ Len(gotE) # 0) THEN "refused call returned results"
